@@ -188,6 +188,25 @@ mod rnd {
 #[cfg(not(feature = "withrand"))]
 mod rnd { pub fn run(_a: &[&str]) -> String { "UNSUPPORTED".into() } }
 
+// ---- feature `serde` (C17): JSON as the observable form of serde's data model
+#[cfg(feature = "withserde")]
+mod srd {
+    use super::*;
+    pub fn run(a: &[&str]) -> String {
+        match a[0] {
+            "sser_u" => serde_json::to_string(&pu(a[1])).unwrap_or_else(|e| format!("ERR {}", e)),
+            "sser_i" => serde_json::to_string(&pi(a[1])).unwrap_or_else(|e| format!("ERR {}", e)),
+            "sde_u" => match serde_json::from_str::<BigUint>(a[1]) { Ok(v) => format!("Ok({})", fu(&v)), Err(_) => "Err".into() },
+            "sde_i" => match serde_json::from_str::<BigInt>(a[1]) { Ok(v) => format!("Ok({})", fi(&v)), Err(_) => "Err".into() },
+            "sround_u" => { let x = pu(a[1]); let t = serde_json::to_string(&x).unwrap(); let y: BigUint = serde_json::from_str(&t).unwrap(); format!("{} {}", x == y, fu(&y)) }
+            "sround_i" => { let x = pi(a[1]); let t = serde_json::to_string(&x).unwrap(); let y: BigInt = serde_json::from_str(&t).unwrap(); format!("{} {}", x == y, fi(&y)) }
+            _ => "UNKNOWN".into(),
+        }
+    }
+}
+#[cfg(not(feature = "withserde"))]
+mod srd { pub fn run(_a: &[&str]) -> String { "UNSUPPORTED".into() } }
+
 fn hash_of<T: std::hash::Hash>(x: &T) -> u64 { use std::hash::Hasher; let mut h = std::collections::hash_map::DefaultHasher::new(); x.hash(&mut h); h.finish() }
 fn sg(s: &str) -> Sign { match s { "-" => Sign::Minus, "0" => Sign::NoSign, _ => Sign::Plus } }
 
@@ -196,6 +215,7 @@ fn run(a: &[&str]) -> String {
     if op == "sc" { return sc(a); }
     if op == "cv" { return cv(a); }
     if op == "fr" { return fr(a); }
+    if op.starts_with("sser_") || op.starts_with("sde_") || op.starts_with("sround_") { return srd::run(a); }
     if op.starts_with('r') && (op.starts_with("rgen_") || op.starts_with("rbits_") || op.starts_with("runiform_") || op.starts_with("rsingle_")) { return rnd::run(a); }
     match op {
         // ---- BigUint arithmetic
